@@ -318,7 +318,24 @@ fn coll_case(ss: u32, k: u32, bs: usize, ops: &[&str]) -> String {
             });
             let tail = match loaded {
                 Err(Stop(m)) => format!("LOAD-{}", m),
-                Ok(()) => format!("OK {} {}", h4::samples_loaded(&c2), flat(dump_full(&c2), |s| s)),
+                Ok(()) => {
+                    let first = format!("OK {} {}", h4::samples_loaded(&c2), flat(dump_full(&c2), |s| s));
+                    // load history: the reader loads a batch again whenever a lookup misses (Decompressor's
+                    // unknown-sample path); a second load of every batch into the SAME collection must leave the
+                    // catalogue as it was (the model's load is a function of the stream bytes).  Batches are loaded
+                    // in the order 0..n, as load_contig_batch's cumulative counter requires and every caller does.
+                    let again = guard(|| {
+                        for b in 0..nb {
+                            c2.load_contig_batch(&mut rd, b)?;
+                        }
+                        Ok(())
+                    });
+                    let second = match again {
+                        Err(Stop(m)) => format!("RELOAD-{}", m),
+                        Ok(()) => format!("OK {} {}", h4::samples_loaded(&c2), flat(dump_full(&c2), |s| s)),
+                    };
+                    if second == first { first } else { format!("{} RELOAD-DIFFERS {}", first, second) }
+                }
             };
             format!("{} {} {}", if cleared { "C" } else { "N" }, nb, tail)
         }
